@@ -10,4 +10,16 @@ ENTRIES = {
     text="Seeded Hypothesis search over pairs of stamp vectors on integer lattices (exact dyadic lattice where a difference equal to max_diff is decidable, inexact decimal lattices with an ambiguity margin), bursty/contested counterparts, offsets, both length orders and storage modes, plus Philox-expanded pairs up to 5000 stamps; the returned pair of trajectories is judged by a validity predicate (copies of input poses, order, bound, nearest counterpart, completeness, uniqueness, refusal, inputs untouched) evaluated in exact rational arithmetic.",
     design_ref="5/C05", technique="property-based testing (Hypothesis) with a validity-predicate oracle in exact rational arithmetic",
     note="Trusted: the predicate in vf/checks/c05.py; ties in 'nearest' and contested counterparts accept any valid outcome; bulk cases use float64 with an 8-ulp margin."),
+ "C01": dict(
+    text="Seeded Hypothesis search over pairs of pose sequences (special relative angles next to 0 and pi, UTM-like offsets, both storage modes, all 7 relations) against the reference definitions, the metamorphic laws of the statement (coincide, common rigid motion, swap), refusal of unequal lengths, bulk sequences to 1e4 poses, and evo_ape driven end to end on generated files with the archive compared against an independent reference pipeline.",
+    design_ref="5/C01", technique="property-based testing (Hypothesis): reference-model differential + metamorphic relations + CLI round trip",
+    note="Trusted: vf/refmodel.py definitions and pipeline; angle tolerance 1e-7 rad, length tolerance 64 eps (max|coord|+1)."),
+ "C02": dict(
+    text="Seeded Hypothesis search over pairs of pose sequences x delta unit x delta (incl. exactly realised values) x pairing mode x source of the pairs x 7 relations against the reference RPE definition on the selected pairs, delta_ids/value count and order, zero-reference-distance filtering of the ratio, invariance under independent rigid motions, refusal of unequal lengths, bulk to 3000 poses, and evo_rpe end to end.",
+    design_ref="5/C02", technique="property-based testing (Hypothesis): reference-model differential + metamorphic relations + CLI round trip",
+    note="Pair lists are taken from evo's selectors (decided separately by C10) on the matrices evo itself derives; tolerances as C01."),
+ "C03": dict(
+    text="Seeded Hypothesis search over point-set pairs in classes generic/planar/nearly collinear/mirrored/exactly degenerate, magnitudes 1e-3..1e6 with UTM offsets, noise 0..100%, with and without scale: properness, least-squares optimality against Horn's quaternion solution (exact rational / 80-bit costs) and against 36 perturbed and random competitors per case, reproduction of the generator, equivariance under similarity motions and permutation, refusals.",
+    design_ref="5/C03", technique="property-based testing (Hypothesis): independent algorithm (Horn) + optimality by competitor search + metamorphic equivariance",
+    note="Sets with reference sigma2 <= max(1e-10, 1e-11 sigma1) may be refused or answered; costs get a float64 noise floor n (64 eps coord)^2."),
 }
